@@ -15,6 +15,7 @@ CONSTANTS
   Getters = {5}
   Interrupters = {5}
   Fixed = TRUE
+  LockedInterrupt = TRUE
   Contig = TRUE
   KeepHist = 0
 INVARIANTS
